@@ -315,9 +315,16 @@ func Verif_C05_B2bWriteStepQ() {
 	c05WriteStep(off, n)
 }
 
-// Verif_C05_B2bWriteStepT: inductive Write step for EVERY offset 0..128 and every |p| 0..261.
+// Verif_C05_B2bWriteStepT: inductive Write step for EVERY offset 0..128 and |p| in
+// {0,1,2,rem-1,rem,rem+1,rem+127,rem+128,rem+129,rem+256,rem+261} (rem = 128-offset).
 func Verif_C05_B2bWriteStepT() {
-	c05WriteStep(verifrt.Choose(0, BlockSize), verifrt.Choose(0, 2*BlockSize+5))
+	off := verifrt.Choose(0, BlockSize)
+	rem := BlockSize - off
+	n := []int{0, 1, 2, rem - 1, rem, rem + 1, rem + 127, rem + 128, rem + 129, rem + 256, rem + 261}[verifrt.Choose(0, 10)]
+	if n < 0 {
+		n = 3
+	}
+	c05WriteStep(off, n)
 }
 
 // Verif_C05_B2bSumStepQ: Sum step at offsets {0,1,127,128}, sizes {1,20,32,64}.
